@@ -1281,7 +1281,91 @@ func classify(v *violation) string {
 	if strings.Contains(v.text, "key not found") && !strings.Contains(v.text, "tbtree: key not found") {
 		return "read-fails-with-cache-key-not-found:opened-files-cache-eviction-race"
 	}
+	if v.bg && strings.HasSuffix(v.text, "EOF") {
+		return "snapshot-read-fails-with-EOF:cleanup-flush-discards-node-files-under-a-reader-in-flight"
+	}
 	return v.sig
+}
+
+// probe 2: a snapshot taken on a flushed root shares its node objects with the tree.  A synced flush with cleanup
+// rewrites those nodes in place (new offsets) and then discards the old node-log files; the protection of open
+// snapshots reads snap.root.minOffset(), which the rewrite has just raised.  A reader that fetched an old offset (or is
+// descending through old on-disk inner nodes) before the rewrite and reads after the discard gets io.EOF.
+// Many reader goroutines on few processors make such stalls frequent.
+func probeDiscard(seed int64, dir string, res *vh.Result) {
+	path := filepath.Join(dir, "probe2")
+	os.RemoveAll(path)
+	opts := tbtree.DefaultOptions().WithLogger(logger.NewSimpleLoggerWithLevel("c10", io.Discard, logger.LogError)).
+		WithMaxKeySize(8).WithMaxValueSize(8).WithMaxNodeSize(74).WithCacheSize(1).WithFileSize(100).WithFlushBufferSize(50).
+		WithNodesLogMaxOpenedFiles(4000).WithHistoryLogMaxOpenedFiles(4000).WithCommitLogMaxOpenedFiles(4000).
+		WithFlushThld(1000).WithSyncThld(1000)
+	t, err := tbtree.Open(path, opts)
+	vh.Must(err, "probe2 open")
+	key := func(i int) []byte { return []byte(fmt.Sprintf("key%05d", i)) }
+	val := vh.Bytes(seed, "probe2", 0, 6)
+	for i := 0; i < 40; i++ {
+		vh.Must(t.Insert(key(i), val), "probe2 insert")
+	}
+	_, _, err = t.FlushWith(0, true)
+	vh.Must(err, "probe2 flush")
+	s, err := t.SnapshotMustIncludeTs(t.Ts())
+	vh.Must(err, "probe2 snapshot")
+	old := runtime.GOMAXPROCS(3)
+	defer runtime.GOMAXPROCS(old)
+	var bad, reads int64
+	var first atomic.Pointer[string]
+	stop := make(chan struct{})
+	var wg sync.WaitGroup
+	for g := 0; g < 200; g++ {
+		wg.Add(1)
+		go func(g int) {
+			defer wg.Done()
+			for n := 0; ; n++ {
+				select {
+				case <-stop:
+					return
+				default:
+				}
+				k := key((n*7 + g) % 40)
+				v, _, _, err := s.Get(k)
+				atomic.AddInt64(&reads, 1)
+				if err != nil || !bytes.Equal(v, val) {
+					m := fmt.Sprintf("Snapshot.Get(%s) = %x, %v", k, v, err)
+					first.CompareAndSwap(nil, &m)
+					atomic.AddInt64(&bad, 1)
+				}
+			}
+		}(g)
+	}
+	deadline := time.Now().Add(6 * time.Second)
+	flushes := 0
+	var ferr error
+	for time.Now().Before(deadline) && atomic.LoadInt64(&bad) == 0 && ferr == nil {
+		_, _, ferr = t.FlushWith(100, true)
+		flushes++
+	}
+	close(stop)
+	wg.Wait()
+	after := 0 // the failures are transient: once the writer rests every key is readable again
+	for i := 0; i < 40; i++ {
+		if v, _, _, err := s.Get(key(i)); err != nil || !bytes.Equal(v, val) {
+			after++
+		}
+	}
+	res.Count("probe2:failed-reads-after-the-writer-stopped", after)
+	res.Count("probe2:cleanup-flushes", flushes)
+	res.Count("probe2:concurrent-reads", int(reads))
+	res.Count("probe2:failed-reads", int(bad))
+	if m := first.Load(); m != nil {
+		vv := &violation{sig: "Snapshot.Get:wrong-result-while-cleanup-flushes-run", text: *m, bg: true}
+		res.Violate(classify(vv), fmt.Sprintf("[probe: 40 keys, node files of 100 bytes, snapshot on the flushed root, 200 reader goroutines on 3 processors, writer calls FlushWith(100, true)] after %d flushes %d of %d reads failed (%d of 40 keys still unreadable once the writer stopped); first: %s", flushes, bad, reads, after, *m),
+			map[string]interface{}{"probe": "cleanup-discard-under-readers", "seed": seed})
+	} else if ferr != nil {
+		vh.Fatalf("probe2 flush: %v", ferr)
+	}
+	s.Close()
+	t.Close()
+	os.RemoveAll(path)
 }
 
 // probe: many files per log, few opened files allowed, several goroutines reading one snapshot while the writer
@@ -1509,6 +1593,7 @@ func main() {
 
 	if *doProbe {
 		probe(*seed, *dir, res)
+		probeDiscard(*seed, *dir, res)
 	}
 	res.Evaluations = int(steps)
 	res.Traces = int(runs)
